@@ -11,7 +11,7 @@ use slicec::slice_file::SliceFile;
 use slicec::visitor::Visitor;
 
 pub fn meta(m: &mut PropMeta) {
-    m.rule = "the C02 program families (every definition kind, anonymous types nested to depth 3 in every position, aliases of anonymous types and their uses, two-file programs whose files reference each other), each file walked separately with a recording visitor; the recorded callback sequence must equal the sequence derived from the model: file, module, definitions in source order, containers before contents, fields / operations / parameters then return members / enumerators / enumerator fields in order, each owner's type reference right after the owner followed depth-first by its nested element, key, value, success and failure references; every entity declared in the file exactly once; nothing from another file. Nested references reached THROUGH an alias of an anonymous type are optional events (the statement's 'to any depth' and 'nothing from another file / nothing twice' clauses pull in opposite directions there). steps = callbacks compared; non-trivial = the file has a nested type or more than one member.";
+    m.rule = "the C02 program families (every definition kind, anonymous types nested to depth 3 in every position, aliases of anonymous types and their uses, two-file programs whose files reference each other), each file walked separately with a recording visitor; the recorded callback sequence must equal the sequence derived from the model: file, module, definitions in source order, containers before contents, fields / operations / parameters then return members / enumerators / enumerator fields in order, each owner's type reference right after the owner followed depth-first by its nested element, key, value, success and failure references; every entity declared in the file exactly once; nothing from another file. Nested references reached THROUGH an alias of an anonymous type are written in the alias declaration and presented there; at a use of the alias they must not be presented again (nothing twice, nothing from another file). steps = callbacks compared; non-trivial = the file has a nested type or more than one member.";
     m.explanation = "bounded-exhaustive program enumeration with a model-derived expected callback sequence";
     m.quick_bound = "as C02 quick";
     m.thorough_bound = "as C02 thorough";
@@ -90,8 +90,13 @@ fn expect_type(n: &Node, r: &crate::model::print::Rendered, optional: bool, out:
     out.push(Ev { text: format!("type:{}:{}{}", n.get("is").unwrap_or("?"), n.get("optional").unwrap_or("?"), pos), optional });
     for c in &n.children {
         if c.kind == "type" {
-            // nested references written here are mandatory; those that came with an alias target are optional
-            expect_type(c, r, optional || c.pos.is_none(), out);
+            // nested references written here are mandatory. Those that came with an alias target are written in the
+            // alias declaration (perhaps in another file) and are presented there: at a use they must NOT be presented
+            // again ("nothing is presented twice ... nothing from another file"; slicec behaves so since dff12ec)
+            if c.pos.is_none() {
+                continue;
+            }
+            expect_type(c, r, optional, out);
         }
     }
 }
